@@ -238,9 +238,15 @@ func loadFindings() []finding {
 				fd.class = v
 			} else if v, ok := strings.CutPrefix(kv, "subject="); ok {
 				re, err := regexp.Compile("^(?:" + v + ")$")
-				if err == nil {
-					fd.subject = re
+				if err != nil {
+					fmt.Fprintf(os.Stderr, "known_findings.txt: bad subject regexp %q: %v\n", v, err)
+					os.Exit(2)
 				}
+				fd.subject = re
+			} else if !fd.fixed {
+				// a blank inside a regexp would silently cut it short (and widen the finding)
+				fmt.Fprintf(os.Stderr, "known_findings.txt: stray token %q before '::' (write blanks in a subject as \\s)\n", kv)
+				os.Exit(2)
 			}
 		}
 		if len(parts) > 1 {
